@@ -17,8 +17,7 @@ def main():
         try:
             mod = importlib.import_module("props." + pid)
             if hasattr(mod, "translate"):
-                with vlib.Lock("lake"):
-                    mod.translate()
+                mod.translate()
         except Exception as ex:
             print(f"setup: translate {pid}: {ex!r}")
     try:
